@@ -94,10 +94,27 @@ func runC15(c *Ctx) {
 			c.Check(once, "C15.Q1-once", c.short(topFunc(g).String())+" › shutdown call", in.Pos(), "shutdown routine called only inside sync.Once.Do", "shutdown routine can run more than once (double close panics)")
 		})
 	}
+	// Close itself: every return is dominated by the Once.Do call, so that a
+	// concurrent second caller waits for the shutdown in progress
+	for _, cs := range c.Calls(closeFn.SSA, Call("sync.Once).Do")) {
+		if cs.Fn != closeFn.SSA {
+			continue
+		}
+		ok := true
+		for _, b := range closeFn.SSA.Blocks {
+			if _, isRet := b.Instrs[len(b.Instrs)-1].(*ssa.Return); isRet && b.Comment != "recover" {
+				if !(cs.In.Block() == b || cs.In.Block().Dominates(b)) {
+					ok = false
+				}
+			}
+		}
+		c.Check(ok, "C15.Q1-once", c.short(closeFn.SSA.String())+" › every return after Once.Do", cs.In.Pos(),
+			"every return of Close is dominated by closeOnce.Do (which blocks until the first shutdown has completed)", "Close has a return path that bypasses closeOnce.Do: a concurrent caller returns while shutdown is still in progress")
+	}
 	if doClose == closeFn.SSA {
 		c.Unk("C15.Q1-once", "dagsync.(*Subscriber).Close", closeFn.SSA.Pos(), "Close performs the shutdown inline; the once-only idiom is not recognised")
 	}
-	c.Floor("C15.Q1-once", 1)
+	c.Floor("C15.Q1-once", 2)
 
 	closeClosing := findInstr(c, doClose, func(in ssa.Instruction) bool {
 		return isCallTo(c, in, Op("builtin", "close", Field("closing", Any())))
@@ -226,6 +243,9 @@ func runC15(c *Ctx) {
 		}
 	}
 	c.Floor("C15.Q2-registration", 8)
+
+	// ---- Q2b announce-triggered syncs: wait group released on every exit of the handling goroutine
+	c15AsyncRegistration(c)
 
 	// ---- Q3 blocking operations -----------------------------------------------------------------
 	c15Blocking(c, doClose)
@@ -463,4 +483,53 @@ func returnsWithoutLoop(blk *ssa.BasicBlock) bool {
 		}
 	}
 	return false
+}
+
+// c15AsyncRegistration: every goroutine started after asyncWG.Add releases the group on every exit.
+func c15AsyncRegistration(c *Ctx) {
+	for _, f := range c.Funcs(dagsyncPkg) {
+		instrs(f.SSA, func(in ssa.Instruction) {
+			goi, ok := in.(*ssa.Go)
+			if !ok {
+				return
+			}
+			var add ssa.Instruction
+			instrs(f.SSA, func(o ssa.Instruction) {
+				if isCallTo(c, o, Call("sync.WaitGroup).Add", Field("asyncWG", Any()))) && Precedes(o, goi) {
+					add = o
+				}
+			})
+			if add == nil {
+				return
+			}
+			mc, _ := goi.Common().Value.(*ssa.MakeClosure)
+			if mc == nil {
+				c.Unk("C15.Q2b-async-registration", f.Name+" › go", goi.Pos(), "registered goroutine is not a literal; cannot check its exits")
+				return
+			}
+			g := mc.Fn.(*ssa.Function)
+			var done ssa.Instruction
+			deferred := false
+			instrs(g, func(o ssa.Instruction) {
+				if isCallTo(c, o, Call("sync.WaitGroup).Done", Field("asyncWG", Any()))) {
+					done = o
+					_, deferred = o.(*ssa.Defer)
+				}
+			})
+			ok = done != nil && deferred
+			if done != nil && !deferred {
+				ok = true
+				for _, b := range g.Blocks {
+					if _, isRet := b.Instrs[len(b.Instrs)-1].(*ssa.Return); isRet && b.Comment != "recover" {
+						if !(done.Block() == b || done.Block().Dominates(b)) {
+							ok = false
+						}
+					}
+				}
+			}
+			c.Check(ok, "C15.Q2b-async-registration", f.Name+" › registered goroutine releases asyncWG", goi.Pos(),
+				"asyncWG.Done is executed on every exit of the goroutine registered with asyncWG.Add", "an exit of the registered goroutine skips asyncWG.Done: Close waits forever")
+		})
+	}
+	c.Floor("C15.Q2b-async-registration", 1)
 }
